@@ -75,6 +75,10 @@ CHECKS = {
    technique="explicit-state BFS over event sequences of a reference model + conformance replay of every explored transition against running trackers (worker-count configurations, placements), every connection fenced after every event",
    text="Event sequences (announce with own / another connection's peer id, with offers, answers to received offers, scrapes merged over swarm workers, orderly and abrupt close) are enumerated breadth-first with deduplication on an abstract model state (depth 2-3 on the full alphabet, 4-5 on a signalling alphabet); each explored transition is replayed with its BFS-tree path in a fresh namespace against aquatic_ws::run for socket_workers x swarm_workers in {1,2,3}^2 (quick: the diagonal) with connections on chosen socket workers (hook H7) and torrents on chosen swarm workers; after every event every connection plus a monitor connection is fenced by a scrape covering all swarm workers and the messages each connection received must be exactly those a reference tracker with per-connection ownership allows (offer receivers are the implementation's choice, checked for legality and followed). 30 ownership paths run on fresh 2-worker trackers where two connections are each the first of their socket worker, so that per-worker connection ids coincide.",
    note="Executor scheduling not controlled; few messages in flight per connection (the 16-slot local channel that drops on overflow is outside the bound); dedup ignores pending offers."),
+ "C11": dict(level="model_checking", engine="seqmc", ref="§3 C11",
+   technique="exhaustive enumeration of list-file contents x reload sequences; explicit-state BFS over announce / reload / clean histories on a live socket worker and on the storages; SIGUSR1 reload sequences against all three run()",
+   text="Layer 1: 57 list-file variants (subsets of {A,B} in lower / upper / mixed hex, blank lines, surrounding blanks and tabs, CRLF, missing final newline; missing file, directory, a bad line of five kinds at first / middle / last position, invalid UTF-8) in all reload sequences of length <= 2 (thorough 3) x 3 modes through update_access_list: decisions follow the last good list, a failed reload returns Err and changes nothing. Layer 2: BFS (dedup on list in force x stored torrents) over announce-datagram / reload / clean histories on a live UDP socket worker (mio and io_uring) and seqmc over the HTTP and WS storages with reload events. Layer 3: aquatic_udp/http/ws run() in child processes x modes: file rewritten, SIGUSR1, reload completion awaited via the H8 counter, announces of A/B/C, timer-driven clean, scrapes, over {}->{A}->{B}->malformed->{A,B}->missing.",
+   note="Layer 3 waits 2.3 s per step for a timer-driven cleaning pass; HTTP/WS gates are exercised in layer 3 only."),
 }
 
 NOT_YET = {}
